@@ -28,6 +28,8 @@ type verifEngine struct {
 	conns   map[int]*MemWaiterServerProtocol
 	out     *bufio.Writer
 	acks    []*Lock
+	ackIds  [][3]uint64 // AofIndex, AofOffset, CommandTime of each registration
+	ackdb   *ReplicationAckDB
 	tq, eq  []*LockQueue
 	stopped bool
 	recycle bool
@@ -88,6 +90,9 @@ func (e *verifEngine) newDB(t0 int64, aoftime uint8) {
 	e.db = db
 	e.conns = map[int]*MemWaiterServerProtocol{}
 	e.acks = nil
+	e.ackIds = nil
+	e.ackdb = NewReplicationAckDB(e.slock.replicationManager)
+	e.ackdb.ackCount = 1
 	e.tq = make([]*LockQueue, 5)
 	e.eq = make([]*LockQueue, 5)
 	e.stopped = false
@@ -127,6 +132,13 @@ func (e *verifEngine) drainAof() {
 		}
 		fmt.Fprintf(e.out, "ev aof %d %d %d %d %d %d %d %d %d %d %d %s %d\n", islock, a.Flag, vn16(a.LockId), vn16(a.LockKey), a.AofFlag,
 			a.CommandTime, a.StartTime, a.ExpriedFlag, a.ExpriedTime, a.Count, a.Rcount, vhex(a.data), ackidx)
+		if ackidx >= 0 {
+			// what Aof.PushLock -> ReplicationManager.PushLock does for a record carrying a lock: the real
+			// ReplicationAckDB registers it (sets lock.ackCount) or fails it at once
+			a.AofIndex, a.AofOffset = 1, uint32(ackidx+1)
+			e.ackIds = append(e.ackIds, [3]uint64{1, uint64(ackidx + 1), a.CommandTime})
+			_ = e.ackdb.ProcessLeaderPushLock(0, a)
+		}
 	}
 }
 
@@ -323,17 +335,23 @@ func (e *verifEngine) action(f []string) {
 		e.sweepE()
 	case "ack":
 		i := int(vatoi(f[1]))
-		if i < len(e.acks) && e.acks[i] != nil {
-			l := e.acks[i]
-			e.acks[i] = nil
-			if l.manager == nil {
-				fmt.Fprintln(e.out, "ev ack-stale")
+		if i < len(e.acks) {
+			// one acknowledgement event (the leader's own flush or a follower's reply: same code path)
+			al := NewAofLock()
+			al.AofIndex, al.AofOffset, al.CommandTime = uint32(e.ackIds[i][0]), uint32(e.ackIds[i][1]), e.ackIds[i][2]
+			if f[2] != "1" {
+				al.Result = protocol.RESULT_ERROR
+			}
+			if len(f) > 3 && f[3] == "acked" {
+				_ = e.ackdb.ProcessLeaderAcked(0, al)
 			} else {
-				e.db.DoAckLock(l, f[2] == "1")
+				_ = e.ackdb.ProcessLeaderAofed(0, al)
 			}
 		} else {
 			fmt.Fprintln(e.out, "ev noack")
 		}
+	case "ackcfg":
+		e.ackdb.ackCount = uint8(vatoi(f[1]))
 	case "role":
 		st := uint8(STATE_FOLLOWER)
 		if f[1] == "1" {
@@ -341,6 +359,7 @@ func (e *verifEngine) action(f []string) {
 		}
 		e.db.managerGlocks[0].Lock()
 		e.db.status = st
+		e.slock.state = st
 		e.db.managerGlocks[0].Unlock()
 	default:
 		panic("unknown action " + f[0])
